@@ -9,6 +9,8 @@ import (
 	"strings"
 	"testing"
 
+	rlog "github.com/alibaba/RedisShake/pkg/libs/log"
+
 	"verif/harness/logcap"
 	"verif/harness/stats"
 )
@@ -104,6 +106,18 @@ func violation(t fataler, prop, sig, format string, args ...any) bool {
 	return true
 }
 
+// keepLevel: the log level is owned by the caller (C19 runs the other properties' drivers at a generated level).
+var keepLevel bool
+
+// quietLog lowers the tool's log level to info for drivers whose debug output is huge; returns the restore function.
+func quietLog() func() {
+	if keepLevel {
+		return func() {}
+	}
+	rlog.SetLevel(rlog.LEVEL_INFO)
+	return func() { rlog.SetLevel(rlog.LEVEL_ALL) }
+}
+
 func envInt(name string, def int) int {
 	if v := os.Getenv(name); v != "" {
 		var n int
@@ -149,9 +163,13 @@ type probe struct {
 	msg    string
 }
 
-func (p *probe) Fatalf(format string, args ...any) { p.failed = true; p.msg = fmt.Sprintf(format, args...); panic(probeStop{}) }
-func (p *probe) Logf(format string, args ...any)   {}
-func (p *probe) Helper()                           {}
+func (p *probe) Fatalf(format string, args ...any) {
+	p.failed = true
+	p.msg = fmt.Sprintf(format, args...)
+	panic(probeStop{})
+}
+func (p *probe) Logf(format string, args ...any) {}
+func (p *probe) Helper()                         {}
 
 type probeStop struct{}
 
